@@ -137,6 +137,18 @@ Definition remove_child_rec (st : state) (v : path) : state :=
     with_tree st2 (delete_subtree (st_tree st2) v)
   else st.
 
+(* parent->RemoveChild(name, NULL, true): PR_NAME_REMOVE_QUIETLY / RemoveDataNodes(.., quiet = true).  Nobody is
+   notified: the node, everything below it and its entry in the parent's index just go.  Not one of the commands
+   of [run] (it gives up the replay property by design); IndexRunProofs.quiet_frame says how far the damage goes. *)
+Definition remove_child_quiet (st : state) (v : path) : state :=
+  if has_node (st_tree st) v then
+    let t1 := match lookup (st_tree st) (parent_of v) with
+              | Some n => set_node (st_tree st) (parent_of v) (fst (remove_index_entry n (last_name v)))
+              | None => st_tree st
+              end in
+    with_tree st (delete_subtree t1 v)
+  else st.
+
 (* RemoveDataCallback only collects nodes below the session nodes (GetDepth() > NODE_DEPTH_SESSIONNAME) *)
 Definition prim_remove_node (st : state) (v : path) : state :=
   if 2 <=? length v then remove_child_rec st v else st.
@@ -173,6 +185,23 @@ Fixpoint set_data_node_aux (st : state) (s : nat) (cur : path) (rel : path) (add
 
 Definition set_data_node (st : state) (s : nat) (rel : path) (addidx : bool) (b : bspec) : state :=
   if has_node (st_tree st) [NS s] then set_data_node_aux st s [NS s] rel addidx b else st.
+
+(* SetDataNode("<rel>/", data, ADDTOINDEX): the empty last clause names no child, so InsertOrderedChild is asked
+   to generate the name; the clauses before it are created like any intermediate nodes *)
+Fixpoint make_path (st : state) (cur : path) (rel : path) : state :=
+  match rel with
+  | [] => st
+  | c :: r => make_path (with_tree st (add_node (st_tree st) (cur ++ [c]))) (cur ++ [c]) r
+  end.
+
+Definition set_data_gen (st : state) (s : nat) (rel : path) : state :=
+  if has_node (st_tree st) [NS s] then prim_insert_ordered (make_path st [NS s] rel) s ([NS s] ++ rel) BEnd None else st.
+
+(* the nodes several patterns of one traversal call back on: each matching node once *)
+Definition add_path (acc : list path) (p : path) : list path :=
+  if existsb (path_eqb p) acc then acc else acc ++ [p].
+Definition expand_all (t : tree) (root : path) (pats : list pattern) : list path :=
+  fold_left add_path (flat_map (expand t root) pats) [].
 
 (* DoGetData with one absolute pattern: GetDataCallback on every matching node *)
 Definition getdata_node (st : state) (s : nat) (e : path * inode) : state :=
@@ -267,9 +296,12 @@ Definition drop_session (st : state) (s : nat) : state :=
 (* ------------------------------------------------------------------ commands *)
 
 Inductive cmd :=
-| CSetData (rel : path) (addidx : bool)                       (* PR_COMMAND_SETDATA, PR_NAME_FLAGS = 0 | ADDTOINDEX *)
-| CInsertOrdered (ppat : pattern) (items : list bspec)        (* PR_COMMAND_INSERTORDEREDDATA, one key *)
-| CReorder (cpat : pattern) (b : bspec)                       (* PR_COMMAND_REORDERDATA, one field; also MoveIndexEntries *)
+| CSetData (items : list (path * bool)) (addidx : bool)       (* PR_COMMAND_SETDATA: one field per path, in order; the bool marks a
+                                                                 trailing '/' (generated name; with ADDTOINDEX only);
+                                                                 PR_NAME_FLAGS = ADDTOINDEX or not (QUIET changes nothing here) *)
+| CInsertOrdered (ppats : list pattern) (items : list bspec)  (* PR_COMMAND_INSERTORDEREDDATA, keys of equal depth *)
+| CReorder (fields : list (pattern * bspec))                  (* PR_COMMAND_REORDERDATA: one traversal per field, in order;
+                                                                 also MoveIndexEntries *)
 | CRemove (pat : pattern)                                     (* PR_COMMAND_REMOVEDATA, one key; also RemoveDataNodes *)
 | CSubscribe (pat : pattern)                                  (* SETPARAMETERS SUBSCRIBE:pat (+ GETDATA when quiet) *)
 | CUnsubscribe (pat : pattern)                                (* REMOVEPARAMETERS SUBSCRIBE:pat *)
@@ -287,13 +319,17 @@ Inductive cmd :=
 
 Definition handle (cfg : config) (st : state) (s : nat) (c : cmd) : state :=
   match c with
-  | CSetData rel addidx => set_data_node st s rel addidx BEnd
-  | CInsertOrdered ppat items =>
+  | CSetData items addidx =>
+      fold_left (fun st (it : path * bool) =>
+                   if snd it then (if addidx then set_data_gen st s (fst it) else st)
+                   else set_data_node st s (fst it) addidx BEnd) items st
+  | CInsertOrdered ppats items =>
       fold_left (fun st p => fold_left (fun st b => prim_insert_ordered st s p b None) items st)
-                (expand (st_tree st) [NS s] ppat) st
-  | CReorder cpat b =>
-      fold_left (fun st q => prim_reorder cfg st s (parent_of q) (last_name q) b)
-                (expand (st_tree st) [NS s] cpat) st
+                (expand_all (st_tree st) [NS s] ppats) st
+  | CReorder fields =>
+      fold_left (fun st (f : pattern * bspec) =>
+                   fold_left (fun st q => prim_reorder cfg st s (parent_of q) (last_name q) (snd f))
+                             (expand (st_tree st) [NS s] (fst f)) st) fields st
   | CRemove pat =>
       fold_left prim_remove_node (rev (expand (st_tree st) [NS s] pat)) st
   | CSubscribe pat => subscribe st s pat
